@@ -387,7 +387,7 @@ func (e *Exec) loopHeader(b *ssa.BasicBlock, preds []*ssa.BasicBlock) {
 	}
 
 	// declared invariant: assumed at the (arbitrary) iteration, proved on entry and across every back edge
-	if spec != nil && spec.invariant != nil {
+	if spec != nil && (spec.invariant != nil || spec.decreases != nil) {
 		cur := map[*ssa.Phi]Term{}
 		for _, in := range b.Instrs {
 			phi, ok := in.(*ssa.Phi)
@@ -399,6 +399,9 @@ func (e *Exec) loopHeader(b *ssa.BasicBlock, preds []*ssa.BasicBlock) {
 			}
 		}
 		for k, inv := range spec.invariant {
+			if inv.name != "" && len(e.bound) > 0 {
+				continue // inside another loop's summary a grouped invariant is only ballast
+			}
 			e.root().curGroup = inv.name
 			t := e.invExpr(inv.expr, b, cur, true)
 			e.root().curGroup = ""
@@ -428,7 +431,11 @@ func (e *Exec) loopHeader(b *ssa.BasicBlock, preds []*ssa.BasicBlock) {
 			}
 		}
 		if e.parent == nil && !e.noObl {
-			e.root().pendingInv = append(e.root().pendingInv, pendingInv{l: l, spec: spec})
+			pi := pendingInv{l: l, spec: spec, reach: reach}
+			for _, dc := range spec.decreases {
+				pi.decHead = append(pi.decHead, e.invExpr(dc.expr, b, cur, true))
+			}
+			e.root().pendingInv = append(e.root().pendingInv, pi)
 		}
 	}
 
@@ -489,6 +496,11 @@ func (e *Exec) loopHeader(b *ssa.BasicBlock, preds []*ssa.BasicBlock) {
 			if len(e.bound) == 0 {
 				for _, c := range e.root().goalSk {
 					e.g.assert(implies(and(reach, "(<= "+lo+" "+c+")", "(< "+c+" "+hi+")"), strings.ReplaceAll(cont, "@J@", c)))
+					// the type facts of the values that iteration loads (quantified over the iteration variable, which the
+					// solvers do not reliably instantiate): alpine's numeric-array proof needed the int64 range of a[k].value
+					for _, f := range e.contFacts {
+						e.g.assert(implies("(inr64 "+c+")", strings.ReplaceAll(f, "@J@", c)))
+					}
 					if nx != nil && nx.IsString {
 						// a goal constant read as a byte position: the rune ordinal that covers it
 						ro := "(rune_of " + e.term(nx.Iter.(*ssa.Range).X) + " " + c + ")"
@@ -545,6 +557,17 @@ func (e *Exec) witnessesFor(groups []string) []Term {
 		}
 	}
 	return out
+}
+
+// allGroups: every invariant group of a loop (a termination proof may use any of its invariants).
+func allGroups(spec *loopSpec) []string {
+	var gs []string
+	for _, inv := range spec.invariant {
+		if inv.name != "" {
+			gs = append(gs, inv.name)
+		}
+	}
+	return gs
 }
 
 // invGroups: the invariant groups an invariant's own obligations switch on (its own group and the ones it names).
@@ -652,6 +675,14 @@ func (e *Exec) contOf(l *loop, ind *ssa.Phi, nx *ssa.Next) (Term, bool) {
 	if e.isTainted(cont) {
 		return "", false
 	}
+	e.contFacts = nil
+	if len(child.bound) == 1 {
+		for _, f := range child.boundFacts {
+			if !e.isTainted(f) {
+				e.contFacts = append(e.contFacts, strings.ReplaceAll(f, jn, j))
+			}
+		}
+	}
 	return strings.ReplaceAll(cont, jn, j), true
 }
 
@@ -725,8 +756,10 @@ func (e *Exec) havocCell(c *cell) Term {
 }
 
 type pendingInv struct {
-	l    *loop
-	spec *loopSpec
+	l       *loop
+	spec    *loopSpec
+	decHead []Term // the variant expressions evaluated at the loop head
+	reach   Term
 }
 
 // invExpr evaluates a loop invariant; loop-carried variables are named by their source names.
@@ -812,11 +845,29 @@ func (e *Exec) invExpr(x *Expr, head *ssa.BasicBlock, phiVals map[*ssa.Phi]Term,
 		}
 	}
 	for name, phis := range other {
-		if _, taken := env.vars[name]; taken || len(phis) != 1 {
+		if _, taken := env.vars[name]; taken {
 			continue
 		}
-		if x, ok := e.lookup(phis[0]); ok && x.fn == nil && len(x.tup) == 0 {
-			env.vars[name] = typedTerm{t: e.peekTerm(x, phis[0].Type()), typ: phis[0].Type()}
+		// several dominating loops carry the name (a cursor advanced by one loop after another): the most recent one, i.e.
+		// the phi whose header every other candidate's header dominates.  (Which value a name denotes affects what an
+		// invariant says, not whether it is sound: it is proved before it is assumed.)
+		pick := phis[0]
+		for _, p := range phis[1:] {
+			if pick.Block().Dominates(p.Block()) {
+				pick = p
+			}
+		}
+		okPick := true
+		for _, p := range phis {
+			if p != pick && !p.Block().Dominates(pick.Block()) {
+				okPick = false
+			}
+		}
+		if !okPick {
+			continue
+		}
+		if x, ok := e.lookup(pick); ok && x.fn == nil && len(x.tup) == 0 {
+			env.vars[name] = typedTerm{t: e.peekTerm(x, pick.Type()), typ: pick.Type()}
 		}
 	}
 	for _, in := range head.Instrs {
@@ -899,6 +950,15 @@ func (e *Exec) finishInvariants() {
 					continue
 				}
 				e.obls = append(e.obls, Obligation{Name: fmt.Sprintf("%s.loop%d.inv%d.step@%d", e.w.fnKey(e.fn), l.ordinal, k+1, lt.Index), Kind: "inv", Cond: e.edgeCond(lt, l.head), Goal: t, Pos: l.head.Instrs[0].Pos(), Fn: e.w.fnKey(e.fn), Groups: invGroups(inv)})
+			}
+			// termination: the variant is non-negative at the head and smaller when control comes back to it
+			for k, dc := range pi.spec.decreases {
+				if k >= len(pi.decHead) {
+					break
+				}
+				vn := e.invExpr(dc.expr, l.head, vals, true)
+				goal := and("(<= 0 "+pi.decHead[k]+")", "(< "+vn+" "+pi.decHead[k]+")")
+				e.obls = append(e.obls, Obligation{Name: fmt.Sprintf("%s.loop%d.decreases%d@%d", e.w.fnKey(e.fn), l.ordinal, k+1, lt.Index), Kind: "inv", Cond: e.edgeCond(lt, l.head), Goal: goal, Pos: l.head.Instrs[0].Pos(), Fn: e.w.fnKey(e.fn), Groups: allGroups(pi.spec)})
 			}
 		}
 	}
